@@ -1,0 +1,14 @@
+//go:build verif
+
+package vaxis
+
+// VerifC19Screen returns a copy of the cells the application has drawn for
+// the next frame (read-only snapshot used by the C19 harness to observe what
+// the list, pager and scrollbar widgets draw).
+func (vx *Vaxis) VerifC19Screen() [][]Cell {
+	out := make([][]Cell, len(vx.screenNext.buf))
+	for i, row := range vx.screenNext.buf {
+		out[i] = append([]Cell(nil), row...)
+	}
+	return out
+}
